@@ -727,6 +727,34 @@ theorem T_C18_clear_view_right_handed (Q : Hex)
   · exact Or.inl (fun i hi => by rw [tp_congr hq i hi]; exact h i hi)
   · exact Or.inr (fun i hi => by rw [tp_congr hq i hi]; exact h i hi)
 
+/-- **Planar sides: clear view ⇒ `Canonical`.**  For a right-handed block whose sides are planar (one half of every side
+    has a normal that is a positive multiple of the side's area vector — then so has the other) the statement about the
+    hull triangles and the statement of the specification about the side area vectors coincide: in a clear view
+    `reorient` returns `Q` itself and `Q` is `Canonical` (front side best aligned with the observer, top side best
+    aligned with the corrected ceiling direction among the four around, eight positive triple products) — hence, by
+    `T_C18_unique`, the only canonical one of the 48 numberings of the block. -/
+theorem T_C18_clear_view_canonical (Q : Hex) (hs : Sep Q) (pts : List V3) (hp : pts.Perm Q.toList)
+    (sim : List ITri) (obs ceil : V3) (f1 f2 b1 b2 t1 t2 o1 o2 l1 l2 r1 r2 : ITri)
+    (hcut : sidesCut f1 f2 b1 b2 t1 t2 o1 o2 l1 l2 r1 r2 = true)
+    (htris : (orientedTris pts sim).Perm ([f1, f2, b1, b2, t1, t2, o1, o2, l1, l2, r1, r2].map (triP Q)))
+    (hview : ¬ ((dirsOf Q.center obs ceil).o = V3.zero ∨ (dirsOf Q.center obs ceil).t = V3.zero))
+    (hv : ClearView (dirsOf Q.center obs ceil) (triP Q f1) (triP Q f2) (triP Q b1) (triP Q b2) (triP Q t1) (triP Q t2) (triP Q o1) (triP Q o2) (triP Q l1) (triP Q l2) (triP Q r1) (triP Q r2))
+    (hF : PlanarHalf Q 4 (triP Q f1)) (hB : PlanarHalf Q 5 (triP Q b1)) (hT : PlanarHalf Q 1 (triP Q t1))
+    (hO : PlanarHalf Q 0 (triP Q o1)) (hL : PlanarHalf Q 2 (triP Q l1)) (hR : PlanarHalf Q 3 (triP Q r1))
+    (hrh : ∀ i < 8, 0 < tp Q i) :
+    reorient pts sim obs ceil = .ok Q.toList ∧ Canonical obs ceil Q := by
+  refine ⟨?_, canonical_of_clear hv hF hB hT hO hL hR hrh⟩
+  rw [T_C18_clear_view Q hs pts hp sim obs ceil f1 f2 b1 b2 t1 t2 o1 o2 l1 l2 r1 r2 hcut htris hview hv]
+  have h0 : tp Q 0 = det3 (Q.toList.getD 1 V3.zero - Q.toList.getD 0 V3.zero)
+      (Q.toList.getD 3 V3.zero - Q.toList.getD 0 V3.zero) (Q.toList.getD 4 V3.zero - Q.toList.getD 0 V3.zero) := rfl
+  have : ¬ det3 (Q.toList.getD 1 V3.zero - Q.toList.getD 0 V3.zero)
+      (Q.toList.getD 3 V3.zero - Q.toList.getD 0 V3.zero) (Q.toList.getD 4 V3.zero - Q.toList.getD 0 V3.zero) < 0 := by
+    rw [← h0]; exact not_lt.mpr (le_of_lt (hrh 0 (by decide)))
+  simp only [fixHand, this, if_false]
+
+/-- non-vacuity of the planarity hypothesis: the front half `(0,1,5)` of the unit cube (`k = 1/2`) -/
+example : PlanarHalf unitCube 4 (triP unitCube (0, 1, 5)) := ⟨1 / 2, by decide +kernel, by decide +kernel⟩
+
 /-- the request `c18.clear` is sound: when the decidable check accepts a witness (numbering `ql`, triangles by side),
     the model's `reorient` returns `fixHand ql` — so on every generated case that is answered `clear` the returned
     numbering is the one `T_C18_clear_view` names, independent of triangle order, diagonals and input numbering. -/
@@ -751,6 +779,26 @@ example : clearSearch (swapLR cubePts) (cubeHull.reverse.map (fun s => (perm [1,
     perm [1, 0, 3, 2, 5, 4, 7, 6] s.2.1, perm [1, 0, 3, 2, 5, 4, 7, 6] s.2.2))) ⟨1 / 2, -10, 1 / 2⟩ ⟨1 / 2, 1 / 2, 10⟩
     = some cubePts := by decide +kernel
 
+
+/-! ### round 6b: duplicated vertices (merged patches)
+
+`Mesh.merge_patches(master, slave)` keeps two vertex objects at every position of the common face.  A finder iterates
+over vertex *objects*; "exact" on such a mesh means: of the objects at one position either all are returned or none. -/
+
+/-- two vertex objects `i ≠ j` at the same position are returned together or not at all — by the sphere finder, the plane
+    finder and the round-shape finder (`_find_from_points`, hence `find_core` / `find_shell`), for every query -/
+theorem T_C18_duplicates_together (vs : List V3) (i j : Nat) (hi : i < vs.length) (hj : j < vs.length)
+    (h : vs.getD i V3.zero = vs.getD j V3.zero) :
+    (∀ c r, i ∈ findInSphere vs c r ↔ j ∈ findInSphere vs c r) ∧
+    (∀ o n, i ∈ findOnPlane vs o n ↔ j ∈ findOnPlane vs o n) ∧
+    (∀ ps, i ∈ findFromPoints vs ps ↔ j ∈ findFromPoints vs ps) := by
+  refine ⟨fun c r => ?_, fun o n => ?_, fun ps => ?_⟩
+  · simp only [findInSphere, mem_findIdx, hi, hj, h]
+  · simp only [findOnPlane, mem_findIdx, hi, hj, h]
+  · simp only [findFromPoints, mem_findIdx, hi, hj, h]
+
+/-- both copies are found where one is: a mesh with the vertex of index 0 duplicated at index 2, default radius -/
+example : findInSphere [⟨1, 0, 0⟩, ⟨2, 0, 0⟩, ⟨1, 0, 0⟩] ⟨1, 0, 0⟩ none = [0, 2] := by decide +kernel
 
 /-! ### round 6: tie to the source text
 
@@ -778,12 +826,37 @@ theorem T_C18_tie_corner_recipe (q : Quads) :
 theorem T_C18_tie_swap (out : List V3) : swapLR out = CBV.Gen.c18SwapIdx.map (fun i => out.getD i V3.zero) := rfl
 
 theorem T_C18_tie_hand (out : List V3) :
-    CBV.Gen.c18HandSides = [("side_x", 1, 0), ("side_y", 3, 0), ("side_z", 4, 0)] ∧
+    CBV.Gen.c18HandSides = [(1, 0), (3, 0), (4, 0)] ∧
     fixHand out =
-      (let side (k : Nat) := out.getD (CBV.Gen.c18HandSides.getD k ("", 0, 0)).2.1 V3.zero -
-          out.getD (CBV.Gen.c18HandSides.getD k ("", 0, 0)).2.2 V3.zero
+      (let side (k : Nat) := out.getD (CBV.Gen.c18HandSides.getD k (0, 0)).1 V3.zero -
+          out.getD (CBV.Gen.c18HandSides.getD k (0, 0)).2 V3.zero
        if det3 (side 0) (side 1) (side 2) < 0 then CBV.Gen.c18SwapIdx.map (fun i => out.getD i V3.zero) else out) :=
   ⟨by decide, rfl⟩
+
+/-- `get_common_point` raises `DegenerateGeometryError` exactly when the number of common points of the three quads is
+    not the source's constant (repair 70219c0: also when there is none — no bare `IndexError`) -/
+theorem T_C18_tie_common_point_guard (q q1 q2 : List V3) :
+    CBV.Gen.c18CommonPointGuard.1 = "NotEq" ∧
+    ((commonPoints (commonPoints q q1) q2).length ≠ CBV.Gen.c18CommonPointGuard.2 →
+      commonPoint q q1 q2 = .error .degenerate) ∧
+    (∀ e, commonPoint q q1 q2 = .error e → e = .degenerate) := by
+  have hn : CBV.Gen.c18CommonPointGuard.2 = 1 := rfl
+  refine ⟨by decide, ?_, ?_⟩
+  · intro h
+    rw [hn] at h
+    unfold commonPoint
+    simp only [h, ne_eq, not_false_eq_true, if_true]
+  · intro e he
+    unfold commonPoint at he
+    simp only at he
+    split at he
+    · cases he; rfl
+    · rename_i hlen
+      split at he
+      · rename_i heq
+        rw [heq] at hlen
+        exact absurd hlen (by simp)
+      · cases he
 
 /-- `_make_triangles` rejects exactly the hulls whose number of simplices is not the source's constant -/
 theorem T_C18_tie_hull_count (pts : List V3) (sim : List (Nat × Nat × Nat)) :
@@ -820,30 +893,29 @@ theorem T_C18_tie_shell_slice (s : Sketch) :
     `> 2`, `!= 2`, `> 1`, `!= 1`, `< 0.5`, `< 0`, `[-2:]`, `[1:3]`, front/back/top/bottom/left/right with their signs) -/
 theorem T_C18_tie_guards :
     CBV.Gen.c18Compares =
-      [("finder.FinderBase._find_by_position", "radius is None"),
-       ("finder.FinderBase._find_by_position", "f.norm(vertex.position - position) < radius"),
-       ("functions.is_point_on_plane", "point_to_plane_distance(origin, normal, point) < constants.TOL"),
-       ("functions.point_to_plane_distance", "norm(origin - point) < constants.TOL"),
-       ("viewpoint.Quadrangle.__init__", "len(triangles) > 2"),
-       ("viewpoint.Quadrangle.__init__", "np.dot(triangles[0].normal, triangles[1].normal) < 0.5"),
-       ("viewpoint.Quadrangle.__init__", "len(common_points) != 2"),
-       ("viewpoint.Quadrangle.__init__", "len(unique_points) != 2"),
-       ("viewpoint.Quadrangle.get_common_point", "len(common_2) > 1"),
-       ("viewpoint.Quadrangle.get_common_points", "f.norm(point_1 - point_2) < constants.TOL"),
-       ("viewpoint.Quadrangle.get_unique_points", "f.norm(point - common_point) < constants.TOL"),
-       ("viewpoint.Triangle.orient", "np.dot(self.center - hull_center, self.normal) < 0"),
-       ("viewpoint.ViewpointReorienter._make_triangles", "len(hull.simplices) != 12"),
-       ("viewpoint.ViewpointReorienter.reorient",
-        "sum((1 for point in sorted_points if f.norm(point - original) < constants.TOL)) != 1"),
-       ("viewpoint.ViewpointReorienter.reorient", "f.norm(point - original) < constants.TOL"),
-       ("viewpoint.ViewpointReorienter.reorient", "np.dot(np.cross(side_x, side_y), side_z) < 0")] ∧
+      [("finder.FinderBase._find_by_position", "v1 is None"),
+       ("finder.FinderBase._find_by_position", "f.norm(v3.position - v0) < v1"),
+       ("functions.is_point_on_plane", "point_to_plane_distance(v0, v1, v2) < constants.TOL"),
+       ("functions.point_to_plane_distance", "norm(v0 - v2) < constants.TOL"),
+       ("viewpoint.Quadrangle.__init__", "len(v0) > 2"),
+       ("viewpoint.Quadrangle.__init__", "np.dot(v0[0].normal, v0[1].normal) < 0.5"),
+       ("viewpoint.Quadrangle.__init__", "len(v1) != 2"),
+       ("viewpoint.Quadrangle.__init__", "len(v2) != 2"),
+       ("viewpoint.Quadrangle.get_common_point", "len(v3) != 1"),
+       ("viewpoint.Quadrangle.get_common_points", "f.norm(v3 - v4) < constants.TOL"),
+       ("viewpoint.Quadrangle.get_unique_points", "f.norm(v4 - v6) < constants.TOL"),
+       ("viewpoint.Triangle.orient", "np.dot(self.center - v0, self.normal) < 0"),
+       ("viewpoint.ViewpointReorienter._make_triangles", "len(v1.simplices) != 12"),
+       ("viewpoint.ViewpointReorienter.reorient", "sum((1 for v10 in v8 if f.norm(v10 - v9) < constants.TOL)) != 1"),
+       ("viewpoint.ViewpointReorienter.reorient", "f.norm(v10 - v9) < constants.TOL"),
+       ("viewpoint.ViewpointReorienter.reorient", "np.dot(np.cross(v11, v12), v13) < 0")] ∧
     CBV.Gen.c18Slices =
-      [("shape.RoundSolidFinder.find_shell", "face.points[1:3]"),
-       ("viewpoint.ViewpointReorienter._get_aligned", "sorted(triangles, key=lambda t: np.dot(t.normal, vector))[-2:]")] ∧
-    CBV.Gen.c18AlignedSlice = (-2, true) ∧ CBV.Gen.c18AlignedKey = "np.dot(t.normal, vector)" ∧
+      [("shape.RoundSolidFinder.find_shell", "v2.points[1:3]"),
+       ("viewpoint.ViewpointReorienter._get_aligned", "sorted(v0, key=lambda v2: np.dot(v2.normal, v1))[-2:]")] ∧
+    CBV.Gen.c18AlignedSlice = (-2, true) ∧ CBV.Gen.c18AlignedKey = "np.dot(v2.normal, v1)" ∧
     CBV.Gen.c18DefaultRadius = ["constants.TOL"] ∧
-    CBV.Gen.c18NormalsDict = [("front", "v_observer"), ("back", "-v_observer"), ("top", "v_ceiling"),
-      ("bottom", "-v_ceiling"), ("left", "v_left"), ("right", "-v_left")] ∧
+    CBV.Gen.c18NormalsDict = [("front", "v1"), ("back", "-v1"), ("top", "v2"),
+      ("bottom", "-v2"), ("left", "v4"), ("right", "-v4")] ∧
     CBV.Gen.c18NormalsDict.map (·.1) = (Dirs.all ⟨V3.zero, V3.zero, V3.zero⟩).map (·.1) := by
   decide +kernel
 
